@@ -93,7 +93,7 @@ def lock_rule(chk, rules):
                     if "LockGuard" in v["ty"]:
                         return ((("locked",),), ())
             return None
-        m = Must(fn, elem_fx, None)
+        m = Must(fn, elem_fx, None, pseudo=True)
         d, c = [], []
         for i, x in fn.ex.items():
             what = None
